@@ -39,6 +39,77 @@ func runC13(p *Prog, r *Report) {
 	if want("C13.7") {
 		ruleRestartPoints(p, r, "C13.7")
 	}
+	if want("C13.8") {
+		ruleNotFoundOnlyWhenExhausted(p, r, "C13.8")
+	}
+}
+
+// ruleNotFoundOnlyWhenExhausted: Reader.find implements "first entry >= key". It may answer
+// ErrNotFound only when the search is exhausted (index seek found no block; the next block does
+// not exist / is empty) or when the filter answered "absent". In particular a data block whose
+// entries are all smaller than the key (the key falls into the gap below the shortened index key)
+// must fall through to the first entry of the NEXT block.
+func ruleNotFoundOnlyWhenExhausted(p *Prog, r *Report, rule string) {
+	r.Begin(rule, "E-GUARD", "table lookup is 'first entry >= key': Reader.find answers ErrNotFound only if index.Seek found no block, the filter said absent, there is no next block (index.Next false) or the next block is empty; when the sought block has no entry >= key the search continues with the next block's first entry (data.Next), and an entry found is returned", 4)
+	defer r.End()
+	fn := resolveFn(p, r, "leveldb/table", "(*Reader).find")
+	if fn == nil {
+		return
+	}
+	isNF := func(v ssa.Value) bool {
+		u, ok := stripConv(v).(*ssa.UnOp)
+		if !ok || u.Op != token.MUL {
+			return false
+		}
+		g, ok := u.X.(*ssa.Global)
+		return ok && g.Name() == "ErrNotFound"
+	}
+	nf := func(in ssa.Instruction) bool {
+		switch x := in.(type) {
+		case *ssa.Store:
+			return isNF(x.Val)
+		case *ssa.Return:
+			for _, v := range x.Results {
+				if isNF(v) {
+					return true
+				}
+			}
+		}
+		return false
+	}
+	isIterCall := func(method string, onIndex bool) VMatch {
+		return func(v ssa.Value) bool {
+			c, ok := v.(*ssa.Call)
+			if !ok {
+				return false
+			}
+			if c.Call.IsInvoke() {
+				return !onIndex && c.Call.Method.Name() == method && namedOf(c.Call.Value.Type()) == "leveldb/iterator.Iterator"
+			}
+			f := staticCallee(&c.Call)
+			return onIndex && f != nil && fnName(f) == "(*leveldb/table.blockIter)."+method
+		}
+	}
+	indexSeek := boolAtom("index.Seek", isIterCall("Seek", true))
+	indexNext := boolAtom("index.Next", isIterCall("Next", true))
+	dataNext := boolAtom("data.Next", isIterCall("Next", false))
+	contains := boolAtom("filter.contains", mCall("(*leveldb/table.filterBlock).contains"))
+	atoms := []Atom{indexSeek, indexNext, dataNext, contains}
+	checkGuard(p, r, GuardSpec{Rule: "not-found-only-when-exhausted", Fn: fn, Target: nf, TargetDesc: "answering ErrNotFound", Atoms: atoms,
+		G: func(a []bool) bool { return !a[0] || !a[1] || !a[2] || !a[3] }, GDesc: "¬index.Seek ∨ ¬index.Next ∨ ¬data.Next ∨ ¬filter.contains", MinTargets: 3})
+	// the fall-through exists: when data.Seek fails (no error), index.Next is consulted
+	dataSeek := boolAtom("data.Seek", isIterCall("Seek", false))
+	r.Site(1)
+	nIdxNext := countInstr(fn, func(in ssa.Instruction) bool { v, ok := in.(ssa.Value); return ok && isIterCall("Next", true)(v) })
+	r.Check(nIdxNext >= 1, fnName(fn), "falls-through-to-next-block", "find consults the next index entry when the sought block has no entry >= key", "no index.Next() in find", p.Pos(fn.Pos()))
+	// a found entry is returned: with data.Seek true, the success exit (key taken from data.Key()) is reached, not an early return
+	keyTaken := func(in ssa.Instruction) bool {
+		c, ok := in.(*ssa.Call)
+		return ok && c.Call.IsInvoke() && c.Call.Method.Name() == "Key"
+	}
+	checkGuardExact(p, r, GuardSpec{Rule: "found-entry-returned", Fn: fn, Starts: after(fn, func(in ssa.Instruction) bool { v, ok := in.(ssa.Value); return ok && isIterCall("Seek", false)(v) }), Target: keyTaken, TargetDesc: "the entry's key is returned", Atoms: []Atom{dataSeek}, G: func(a []bool) bool { return a[0] }, GDesc: "data.Seek(key) found an entry"}, isReturn, "return")
+	nextTaken := []Atom{dataSeek, indexNext, dataNext}
+	checkGuardExact(p, r, GuardSpec{Rule: "next-block-entry-returned", Fn: fn, Starts: after(fn, func(in ssa.Instruction) bool { v, ok := in.(ssa.Value); return ok && isIterCall("Next", false)(v) }), Target: keyTaken, TargetDesc: "the next block's first entry is returned", Atoms: nextTaken, G: func(a []bool) bool { return a[2] }, GDesc: "the next block has a first entry"}, isReturn, "return")
 }
 
 const tBlock = "leveldb/table.block"
